@@ -8,7 +8,7 @@
    property under check are evaluated on (pre-state, event, post-state).  A trace is accepted iff
    every line is consumed.  `Active' selects which properties' predicates are enforced, so a
    check never fails on a predicate that belongs to another property.                          *)
-EXTENDS WpMath, Json, IOUtils, TLC, Sequences, FiniteSets, FiniteSetsExt, SequencesExt
+EXTENDS WpMath, WpIface, Json, IOUtils, TLC, Sequences, FiniteSets, FiniteSetsExt, SequencesExt
 
 CONSTANT Active          \* set of property ids, e.g. {"C01"}
 
@@ -39,6 +39,8 @@ ApplySec(old, set, del) ==
   [k \in (DOMAIN old \cup DOMAIN set) \ SeqSet(del) |-> IF k \in DOMAIN set THEN set[k] ELSE old[k]]
 MergeFn(old, new) == [k \in DOMAIN old \cup DOMAIN new |-> IF k \in DOMAIN new THEN new[k] ELSE old[k]]
 
+ApplyDiff(s, d) ==
+  [sec \in Sections |-> ApplySec(s[sec], d.set[sec], d.del[sec])] @@ [prices |-> s.prices, now |-> s.now]
 Apply(s, e) ==
   [sec \in Sections |-> ApplySec(s[sec], e.diff.set[sec], e.diff.del[sec])]
      @@ [prices |-> MergeFn(s.prices, e.prices), now |-> e.now]
@@ -411,6 +413,8 @@ DualOK(e) ==
 
 (* the per-event transition *)
 IxOK(pre, e, post) ==
+  /\ Chk("C04", "authorised", Guard(pre, e))
+  /\ Chk("C15", "accounts_belong", Guard(pre, e))
   /\ Chk("C12", "anchor_equals_pinocchio", DualOK(e))
   /\ Chk("C12", "entrypoint_routing", e.routing \in {"none", "same"})
   /\ Chk("C05", "liq_sum", \A p \in DOMAIN post.pool : LiqSum(post, p))
@@ -461,16 +465,21 @@ Next ==
             /\ st' = [st EXCEPT !.now = e.now]
             /\ gh' = gh
        [] e.k = "ix" ->
+            \* probes (matrix driver) are executed on a copy of the bank, possibly after a recorded tweak
+            \* (preDiff) of the state; they are checked but do not advance the specification state
+            LET pre == IF e.hasPreDiff THEN ApplyDiff(st, e.preDiff) ELSE st IN
             IF e.ok
-            THEN LET post == Apply(st, e) IN
-                 /\ IxOK(st, e, post)
-                 /\ st' = post
-                 /\ gh' = [seg |-> SegAfter(st, e, post),
-                            led |-> IF "C07" \in Active THEN LedAfter(gh.led, st, e, post) ELSE <<>>,
-                            rled |-> IF "C11" \in Active THEN RLedAfter(gh.rled, st, e, post) ELSE <<>>]
-                 /\ Chk("C07", "fee_ledger", C07Ledger(gh'.led, post))
-                 /\ Chk("C11", "reward_ledger", C11Ledger(gh'.rled, post))
-            ELSE /\ IxFailed(st, e)
+            THEN LET post == Apply(pre, e) IN
+                 /\ IxOK(pre, e, post)
+                 /\ IF e.probe
+                    THEN st' = [st EXCEPT !.prices = MergeFn(st.prices, e.prices)] /\ gh' = gh
+                    ELSE /\ st' = post
+                         /\ gh' = [seg |-> SegAfter(pre, e, post),
+                                   led |-> IF "C07" \in Active THEN LedAfter(gh.led, pre, e, post) ELSE <<>>,
+                                   rled |-> IF "C11" \in Active THEN RLedAfter(gh.rled, pre, e, post) ELSE <<>>]
+                         /\ Chk("C07", "fee_ledger", C07Ledger(gh'.led, post))
+                         /\ Chk("C11", "reward_ledger", C11Ledger(gh'.rled, post))
+            ELSE /\ IxFailed(pre, e)
                  /\ st' = [st EXCEPT !.prices = MergeFn(st.prices, e.prices)]
                  /\ gh' = gh
 
